@@ -356,6 +356,9 @@ def tasks(tier, seed):
         T.append(Task('from_pairs/n%d' % n, h_from_pairs, (n,), tier='B'))
     for n in (1, 2):
         T.append(Task('isclose/n%d' % n, h_isclose, (n,), tier='B'))
+    T.append(Task('U/expectation/abstract-distribution', h_expectation_U, (), tier='U', note='unbounded support, uninterpreted events/probabilities/function, recursive ghost sum'))
+    T.append(Task('U/marginalize/abstract-distribution', h_marginalize_U, (), tier='U', note='unbounded support, quantified invariant over a z3 array accumulator', vc_timeout_ms=30000))
+    T.append(Task('U/mixture/abstract-distributions', h_mixture_U, (), tier='U', note='two cut loops, unbounded supports'))
     T.append(Task('rt/seeded-sampling', rt_seeds, (seed, 30 if tier == 'quick' else 300), tier='R', kind='rt'))
     return T
 
@@ -377,6 +380,169 @@ SENTINELS = [
              "if weight > 0:", "if weight >= 0:", ['condition/dict/n2/zero1', 'condition/dict/n2/zero2']),
     Sentinel('sample-ignores-rng', 'msdm.core.distributions.distributions',
              "        s = rng.choices(", "        s = random.choices(", ['sample/dict/n2/zero0/k1']),
+    Sentinel('U:marginalize-overwrites-instead-of-accumulating', 'msdm.core.distributions.distributions',
+             "            newdist[projection(e)] += p", "            newdist[projection(e)] = p", ['U/marginalize/abstract-distribution']),
+    Sentinel('U:expectation-forgets-the-probability', 'msdm.core.distributions.distributions',
+             "            tot += real_function(e)*p", "            tot += real_function(e)", ['U/expectation/abstract-distribution']),
     Sentinel('uniform-prob-wrong-denominator', 'msdm.core.distributions.dictdistribution',
              "return 1/len(self.support)", "return 1/(len(self.support) + (len(self.support) > 2))", ['algebra/uniform/n3/proj0']),
 ]
+
+
+# ---------------------------------------------------------------------------------------------------
+# tier U: loops over an ABSTRACT distribution of unbounded support (events are atoms key(i), probabilities val(i), length n symbolic)
+# ---------------------------------------------------------------------------------------------------
+def _abstract_dist():
+    import z3
+    from symrun.absx import Opaque
+    key, val = z3.Function('key', z3.IntSort(), z3.IntSort()), z3.Function('val', z3.IntSort(), z3.RealSort())
+    n = S.integer('n', 0, None)
+
+    class AbsD(dd.FiniteDistribution):
+        @property
+        def support(self):
+            return Opaque('support')
+
+        def prob(self, e):
+            raise S.Unsupported('prob of an abstract distribution')
+
+        def items(self):
+            return Opaque('items')
+    return AbsD(), key, val, n
+
+
+def h_expectation_U():
+    """expectation(f) == sum_{i<n} f(key(i)) * val(i)   for every length n, all events, probabilities and real-valued f (recursive ghost sum, loop cut)"""
+    import z3, os
+    from symrun.absx import Atom, rsum
+    from symrun.cut import cut, CutSpec
+    from symrun.driver import ROOT
+    d, key, val, n = _abstract_dist()
+    f = z3.Function('f', z3.IntSort(), z3.RealSort())
+    Ssum = rsum('msum', lambda i: f(key(i)) * val(i))
+    ghost, state = {}, {'phase': 'head'}
+
+    def inv(L):
+        if 'k' not in ghost:
+            return S.eq(L['tot'], 0)
+        k = ghost['k'] + (1 if state['phase'] == 'back' else 0)
+        return S.eq(L['tot'], S.SymReal(Ssum(S.as_real(k).e if not isinstance(k, int) else k)))
+
+    def toint(x):
+        return z3.ToInt(S.as_real(x).e)
+
+    def inv2(L):
+        if 'k' not in ghost:
+            return S.eq(L['tot'], 0)
+        kk = ghost['kz'] + (1 if state['phase'] == 'back' else 0)
+        return S.eq(L['tot'], S.SymReal(Ssum(kk)))
+
+    def havoc(L):
+        kz = z3.Int('ghost_k')
+        S.cur().inputs['ghost_k'] = kz
+        S.assume(S.SymBool(kz >= 0))
+        ghost['k'] = True
+        ghost['kz'] = kz
+        return dict(tot=S.SymReal(Ssum(kz)), e=None, p=None)
+
+    def element(L, it):
+        S.assume(S.SymBool(ghost['kz'] < z3.ToInt(S.as_real(n).e)))
+        state['phase'] = 'back'
+        return (Atom(key(ghost['kz'])), S.SymReal(val(ghost['kz'])))
+    spec = CutSpec(inv=inv2, havoc=havoc, element=element, exhausted=lambda L: S.SymBool(ghost['kz'] == z3.ToInt(S.as_real(n).e)))
+    fcut, text, info = cut(dd.FiniteDistribution.expectation, {0: spec}, dump_dir=os.path.join(ROOT, 'evidence', 'extracted'))
+    res = fcut(d, lambda e: S.SymReal(f(e.e)))
+    S.check('U:expectation:probability-weighted-sum-over-the-whole-support(any-length)', S.eq(res, S.SymReal(Ssum(z3.ToInt(S.as_real(n).e)))))
+
+
+def h_marginalize_U():
+    """marginalize(proj)(j) == sum_{i<n: proj(key(i)) = j} val(i)  for EVERY event j, every length n: quantified invariant over a z3 array accumulator"""
+    import z3, os
+    from symrun.absx import Atom, AbsMap, rsum2, fresh_atom
+    from symrun.cut import cut, CutSpec
+    from symrun.driver import ROOT
+    d, key, val, n = _abstract_dist()
+    proj = z3.Function('proj', z3.IntSort(), z3.IntSort())
+    S2 = rsum2('msum2', lambda i, j: z3.If(proj(key(i)) == j, val(i), z3.RealVal(0)))
+    nz = z3.ToInt(S.as_real(n).e)
+    ghost, state = {}, {'phase': 'head'}
+    J = fresh_atom('any_event')       # an ARBITRARY event fixed up-front: the invariant for it is inductive on its own, and J is arbitrary (generalisation)
+
+    def quant(arr, k):
+        return S.eq(S.SymReal(z3.Select(arr, J.e)), S.SymReal(S2(k, J.e)))
+
+    def inv(L):
+        nd = L['newdist']
+        if 'kz' not in ghost:
+            return S.truth(len(nd) == 0)          # the real defaultdict is still empty on entry
+        kk = ghost['kz'] + (1 if state['phase'] == 'back' else 0)
+        return quant(nd.arr, kk)
+
+    def havoc(L):
+        kz = z3.Int('ghost_k')
+        S.cur().inputs['ghost_k'] = kz
+        S.assume(S.SymBool(kz >= 0))
+        ghost['kz'] = kz
+        return dict(newdist=AbsMap(name='newdist'), e=None, p=None)
+
+    def element(L, it):
+        S.assume(S.SymBool(ghost['kz'] < nz))
+        state['phase'] = 'back'
+        return (Atom(key(ghost['kz'])), S.SymReal(val(ghost['kz'])))
+    spec = CutSpec(inv=inv, havoc=havoc, element=element, exhausted=lambda L: S.SymBool(ghost['kz'] == nz))
+    fcut, text, info = cut(dd.FiniteDistribution.marginalize, {0: spec}, dump_dir=os.path.join(ROOT, 'evidence', 'extracted'))
+    with patched((dd, dict(DictDistribution=lambda m: m))):
+        res = fcut(d, lambda e: Atom(proj(e.e)))
+    S.check('U:marginalize:sums-the-probabilities-of-merged-events(every-event,any-length)', S.eq(res[J], S.SymReal(S2(nz, J.e))))
+
+
+def h_mixture_U():
+    """(a | b)(j) == sum_{i<na: keyA(i)=j} valA(i) + sum_{i<nb: keyB(i)=j} valB(i)  for every event j and all lengths: two cut loops over two abstract distributions"""
+    import z3, os
+    from symrun.absx import Atom, AbsMap, rsum2, fresh_atom, Opaque
+    from symrun.cut import cut, CutSpec
+    from symrun.driver import ROOT
+    I, Rl = z3.IntSort(), z3.RealSort()
+    keyA, valA, keyB, valB = z3.Function('keyA', I, I), z3.Function('valA', I, Rl), z3.Function('keyB', I, I), z3.Function('valB', I, Rl)
+    na, nb = z3.Int('na'), z3.Int('nb')
+    S.cur().inputs.update(na=na, nb=nb)
+    S.assume(S.SymBool(z3.And(na >= 0, nb >= 0)))
+    SA = rsum2('mixA', lambda i, j: z3.If(keyA(i) == j, valA(i), z3.RealVal(0)))
+    SB = rsum2('mixB', lambda i, j: z3.If(keyB(i) == j, valB(i), z3.RealVal(0)))
+
+    class AbsD(dd.FiniteDistribution):
+        support = property(lambda self: Opaque('support'))
+        def prob(self, e): raise S.Unsupported('prob of an abstract distribution')
+        def items(self): return Opaque('items')
+    a, b = AbsD(), AbsD()
+    J = fresh_atom('any_event')
+    g = {0: {}, 1: {}}
+    phase = {0: 'head', 1: 'head'}
+
+    def mk(loop, key, val, n, Sfun, base):
+        def inv(L):
+            nd = L['newdist']
+            if 'kz' not in g[loop]:
+                if loop == 0:
+                    return S.truth(len(nd) == 0)
+                return S.eq(S.SymReal(z3.Select(nd.arr, J.e)), S.SymReal(SA(na, J.e)))      # entry of loop 1: loop 0 is finished
+            kk = g[loop]['kz'] + (1 if phase[loop] == 'back' else 0)
+            return S.eq(S.SymReal(z3.Select(nd.arr, J.e)), base() + S.SymReal(Sfun(kk, J.e)))
+
+        def havoc(L):
+            kz = z3.Int('ghost_k%d' % loop)
+            S.cur().inputs['ghost_k%d' % loop] = kz
+            S.assume(S.SymBool(kz >= 0))
+            g[loop]['kz'] = kz
+            return dict(newdist=AbsMap(name='newdist%d' % loop), e=None, p=None)
+
+        def element(L, it):
+            S.assume(S.SymBool(g[loop]['kz'] < n))
+            phase[loop] = 'back'
+            return (Atom(key(g[loop]['kz'])), S.SymReal(val(g[loop]['kz'])))
+        return CutSpec(inv=inv, havoc=havoc, element=element, exhausted=lambda L: S.SymBool(g[loop]['kz'] == n))
+    specs = {0: mk(0, keyA, valA, na, SA, lambda: 0), 1: mk(1, keyB, valB, nb, SB, lambda: S.SymReal(SA(na, J.e)))}
+    fcut, text, info = cut(dd.FiniteDistribution.__or__, specs, dump_dir=os.path.join(ROOT, 'evidence', 'extracted'))
+    with patched((dd, dict(DictDistribution=lambda m: m))):
+        res = fcut(a, b)
+    S.check('U:mixture:adds-the-probabilities-of-both-operands-pointwise(every-event,any-lengths)', S.eq(res[J], S.SymReal(SA(na, J.e)) + S.SymReal(SB(nb, J.e))))
